@@ -172,15 +172,24 @@ class Stages:
         self.agree_blocks = sorted(set(agree_blocks))
         self.agree = outer_loop_of(self.agree_blocks[:1], run_bbs) if self.agree_blocks else None
         # rule engine instances: blocks switching on the discriminant of an ArtifactRule
+        # one instance per outermost loop around the dispatch (the loop over the items whose rules are applied), however many
+        # helper levels lie between in_toto_verify and the rule engine
         rule_blocks = {}
+        loop_of = {}
         for (e, tb, f) in b.all_edge_facts():
             if f[0] in ("variant", "notvariant") and (f[3] or "").endswith("rule::ArtifactRule"):
-                inst = b.blocks[e[0]].get("inst", "")
-                top = "/".join(inst.split("/")[:2])
-                rule_blocks.setdefault(top, set()).add(e[0])
+                if e[0] not in loop_of:
+                    lp = outer_loop_of([e[0]], run_bbs)
+                    loop_of[e[0]] = lp
+                lp = loop_of[e[0]]
+                key = frozenset(lp) if lp else frozenset()
+                rule_blocks.setdefault(key, set()).add(e[0])
         self.rule_instances = []
-        for top, blks in sorted(rule_blocks.items()):
-            lp = outer_loop_of(sorted(blks)[:1], run_bbs)
+        for key, blks in sorted(rule_blocks.items(), key=lambda kv: min(kv[1])):
+            lp = set(key) if key else None
+            hdr = min(lp) if lp else min(blks)
+            inst = b.blocks[hdr].get("inst", "")
+            top = inst or "/"
             self.rule_instances.append((top, blks, lp))
 
     def _ty_of(self, op):
